@@ -279,6 +279,8 @@ class Rows:
         names = ['data', 'columns']
         a = dict(zip(names, args))
         for k_, v in kwargs.items():
+            if k_ == '**':
+                continue
             if k_ not in names or k_ in a:
                 raise OutOfSubset('constructor keyword %s' % k_)
             a[k_] = v
@@ -313,6 +315,12 @@ class Rows:
             ex.oblige(st, 'call.constructor.pre.columns_equally_long', equally_long(data), kind='pre')
             self.constructed.append(('columns', data, out))
             return SV('table', None, dom=data.dom, clen=data.clen, carr=data.carr, cls=fn.f['name'])
+        if data.kind == 'none' and columns.kind == 'none' and kwargs.get('**') is not None and kwargs['**'].kind == 'colmap':
+            cm = kwargs['**']
+            ex.use('callee contract:dictable(**{name: list, ...}) with equally long lists has exactly these columns (proved in C01 constructor.keywords.*)')
+            ex.oblige(st, 'call.constructor.pre.columns_equally_long', equally_long(cm), kind='pre')
+            self.constructed.append(('keywords', cm, out))
+            return SV('table', None, dom=cm.dom, clen=cm.clen, carr=cm.carr, cls=fn.f['name'])
         if data.kind == 'none' and columns.kind == 'none':
             ex.use('callee contract:dictable() has no column (proved in C01 constructor.nothing.*)')
             ex.fact(no_columns(out))
@@ -389,7 +397,7 @@ class Rows:
 # ================================================================================================ dict-of-columns values and the constructor
 from . import theories as _th
 _th.TYPE_KINDS['dict'] = tuple(sorted(set(_th.TYPE_KINDS.get('dict', ())) | {'colmap', 'rowmap', 'table'}))      # Dict / dictable are dict subclasses
-_th.TYPE_KINDS['list'] = tuple(sorted(set(_th.TYPE_KINDS.get('list', ())) | {'rowlist'}))
+_th.TYPE_KINDS['list'] = tuple(sorted(set(_th.TYPE_KINDS.get('list', ())) | {'rowlist', 'keylist'}))
 _th.TYPE_KINDS.setdefault('Path', ())
 _th.TYPE_KINDS.setdefault('pd.io.excel.ExcelFile', ())
 
@@ -685,6 +693,66 @@ def slice_axiom(s, L):
                ForAll([j], Implies(And(0 <= j, j < SLEN(s, L)), And(0 <= SIDX(s, L, j), SIDX(s, L, j) < L))))
 
 
+def name_list(name):
+    """a python list of column names: (length, names : Int -> Key)"""
+    return SV('keylist', fresh_int(name + '_n'), arr=Array(fresh_name(name + '_a'), IntSort(), Key), elems='str')
+
+
+def named(kl, k):
+    j = Int('j!nm')
+    return Exists([j], And(0 <= j, j < kl.t, Select(kl.arr, j) == k))
+
+
+class Names:
+    """lists of column names: d[[name, ...]] goes through dictattr.__getitem__ (inlined from its source) to the constructor with keyword columns"""
+
+    def call(self, ex, st, e, fname, args, kwargs):
+        a0 = args[0] if args else None
+        if fname in ('is_strs', 'is_bools', 'is_ints') and len(args) == 1 and a0.kind == 'keylist':
+            ex.use('path precondition:the item is a list of strs')
+            return B(fname == 'is_strs')
+        if fname == 'len' and len(args) == 1 and a0.kind == 'keylist':
+            return I(a0.t)
+        if fname == 'type' and len(args) == 1 and a0.kind == 'table':
+            return CLS(a0.f.get('cls') or 'dictable')
+        return NotImplemented
+
+    def method(self, ex, st, e, recv, mname, args, kwargs):
+        if recv.kind == 'super' and mname == '__getitem__' and len(args) == 1 and args[0].kind == 'keylist' and 'dictattr.__getitem__' in ex.inline:
+            return ex.call_inline_expr(st, 'dictattr.__getitem__', [recv.f['of'], args[0]], {})
+        return NotImplemented
+
+    def dictcomp(self, ex, st, e):
+        # {k: self[k] for k in names}
+        if len(e.generators) != 1 or e.generators[0].ifs or not isinstance(e.generators[0].target, ast.Name):
+            return NotImplemented
+        g = e.generators[0]
+        probe = st.fork()
+        try:
+            it = ex.eval(probe, g.iter)
+        except OutOfSubset:
+            return NotImplemented
+        if it.kind != 'keylist':
+            return NotImplemented
+        kv = Const(fresh_name('k!nm'), Key)
+        sub = st.fork(); sub.pending = []
+        sub.pc.append(named(it, kv))
+        base = len(sub.pc)
+        sub.env = dict(st.env); sub.env[g.target.id] = KEY(kv)
+        knew, vnew = ex.eval(sub, e.key), ex.eval(sub, e.value)
+        if knew.kind != 'key' or not z3.eq(simplify(knew.t), kv) or vnew.kind != 'list':
+            raise OutOfSubset('comprehension over a list of names with %s values' % vnew.kind)
+        for o in sub.pending:
+            cond = And(*o.st.pc[base:]) if len(o.st.pc) > base else BoolVal(True)
+            k2 = Const(fresh_name('k!nmr'), Key)
+            ex.raise_if(st, Exists([k2], And(named(it, k2), z3.substitute(cond, (kv, k2)))), o.val)
+        ex.use('axiom:{k: f(k) for k in names} has exactly the listed names as keys and the values f(k); it raises iff some f(k) raises')
+        vl = as_list_sv(vnew, VAL)
+        dom = Array(fresh_name('named'), Key, BoolSort())
+        ex.fact(ForAll([kv], Select(dom, kv) == named(it, kv)))
+        return colmap(dom, Lambda([kv], vl.t), Lambda([kv], vl.arrs[0]))
+
+
 class Slices:
     """xs[s] for an opaque slice object s: which indices are selected depends on s and len(xs) only (slice.indices), so equally long lists are
     cut alike; tuples of column names; `callable` / `is_tuple` / membership of non-names in keys()."""
@@ -844,6 +912,41 @@ class Concats:
             s = simplify(idx.t)
             if z3.is_int_value(s) and 0 <= s.as_long() < len(recv.f['items']):
                 return recv.f['items'][s.as_long()]
+        return NotImplemented
+
+
+# ================================================================================================ update: a loop over __setitem__
+class Updates:
+    """`for k, v in other.items(): self[k] = v`: the items of a dict come in some order that lists every key once (positions <-> keys: the same
+    bijection axioms as for sorted keys, any enumeration will do); `self[k] = v` by the contract of dictable.__setitem__ (proved in C01 __setitem__.*),
+    here on its accepting path for a value that fits."""
+
+    def __init__(self, rows):
+        self.rows = rows          # the row count of the receiver once it has a column (as the loop contract knows it); checked at every call
+
+    def iterate(self, ex, st, it):
+        if it.kind in ('titems', 'cmitems'):
+            src = it.f['of']
+            d = src.dom
+            ex.use('axiom:iterating d.items() yields every key of d exactly once, with its value (the order is left open)')
+            for f in sorted_keys_axioms():
+                ex.fact(f)
+            return NK(d), (lambda st2, i: T([KEY(SK(d, i)), column(src, SK(d, i))]))
+        return NotImplemented
+
+    def store_subscript(self, ex, st, tg, recv, idx, v):
+        if recv.kind == 'table' and idx.kind == 'key' and v.kind == 'list':
+            vl = as_list_sv(v, VAL)
+            k_ = Const('k!si', Key)
+            ex.oblige(st, 'call.__setitem__.pre.receiver_is_rectangular_with_that_many_rows', ForAll([k_], Implies(Select(recv.dom, k_), Select(recv.clen, k_) == self.rows)), kind='pre')
+            n = If(no_columns(recv), 0, self.rows)
+            ex.use('callee contract:d[name] = list stores the list as column `name` when its length fits (len(d) rows, or d has no column yet) and leaves the other '
+                   'columns; a length-1 list is broadcast, any other length raises ValueError before anything is stored (proved in C01 __setitem__.*)')
+            fits = Or(vl.t == n, no_columns(recv))
+            ex.raise_if(st, Not(Or(fits, vl.t == 1)), 'ValueError')
+            ex.oblige(st, 'call.__setitem__.value_fits', fits, kind='pre')          # the broadcast path is not needed by update's callers: stated as a precondition
+            return SV('table', None, dom=Store(recv.dom, idx.t, BoolVal(True)), clen=Store(recv.clen, idx.t, vl.t), carr=Store(recv.carr, idx.t, vl.arrs[0]),
+                      cls=recv.f.get('cls'))
         return NotImplemented
 
 
